@@ -269,7 +269,10 @@ def join_vals(a: Optional[Val], b: Optional[Val]) -> Optional[Val]:
         return a
     if a is b:
         return a
-    dim, conflict = dim_unify(a.dim, b.dim)
+    # at a merge a bare number can stand for a quantity of any dimension (x = 0 / x = 1 in one branch)
+    ad = ANY if (a.is_number_const() and dim_known(dim_collapse(b.dim))) else a.dim
+    bd = ANY if (b.is_number_const() and dim_known(dim_collapse(a.dim))) else b.dim
+    dim, conflict = dim_unify(ad, bd)
     if conflict:
         dim = TOP
     items = None
